@@ -110,7 +110,11 @@ int main(int argc, char** argv)
     else if(pid == "C18") { if(below(4)) line2(pick({"shr", "shl"}), fin(value()), below(16) ? (int64_t)below(64) : -(int64_t)below(1u << 31)); else line2("band", value(), value()); }
     else if(pid == "C19") { unsigned k = (unsigned)below(5); if(k < 2) line1(pick({"sin_aprox", "cos_aprox"}), (int64_t)(int32_t)nxt()); else if(k == 2) { int64_t a = (int64_t)(int32_t)nxt(); line2(pick({"re_sin_aprox", "re_cos_aprox", "re_sincos_aprox"}), a, below(2) ? (a & 0xffff) : (int64_t)(int32_t)nxt()); }
       else if(k == 3) line1("sqrt_aprox", below(6) ? (int64_t)strat(37) : fin(value())); else line1(pick({"atan_index", "atan_aprox"}), fin(value(47))); }
-    else if(pid == "C20") { int t = (int)below(10); unsigned k = (unsigned)below(4); if(k == 0) typed1("a2r", t, tvalue(t)); else { i128 lo, hi; trange(t, lo, hi); i128 d = (i128)below(721) - 360; if(d < lo) d = lo; if(d > hi) d = hi; typed1(pick({"sin_angle", "cos_angle", "tan_angle"}), t, d); } }
+    else if(pid == "C20") { unsigned k = (unsigned)below(10);
+      if(k < 7) { static const int wide[] = { 3, 7, 8, 9 }; int t = below(2) ? wide[below(4)] : (int)below(10);      // angle_to_radians has the only huge domain here
+        i128 v = tvalue(t); if(below(3) == 0 && (t == 3 || t >= 7)) { v = (i128)(uint64_t)nxt(); if(t == 3 || t == 8) v = (i128)(int64_t)(uint64_t)v; }
+        typed1("a2r", t, v); }
+      else { int t = (int)below(10); i128 lo, hi; trange(t, lo, hi); i128 d = (i128)below(721) - 360; if(d < lo) d = lo; if(d > hi) d = hi; typed1(pick({"sin_angle", "cos_angle", "tan_angle"}), t, d); } }
     else { // C07 / C08 and anything else: a mix of everything cheap
       unsigned k = (unsigned)below(10); int64_t a = value(), b = partner(a);
       if(k == 0) line2(pick({"add", "sub", "mul", "div"}), a, b); else if(k == 1) line1(pick({"sin", "cos", "tan", "atan", "ceil", "floor", "neg", "abs"}), k ? a : b);
